@@ -2083,6 +2083,10 @@ func valueFingerprint(v ssa.Value, depth int, busy map[ssa.Value]bool) string {
 	busy[v] = true
 	defer delete(busy, v)
 	sub := func(x ssa.Value) string { return valueFingerprint(x, depth-1, busy) }
+	// induction variables have one canonical form whatever the loop syntax (counted loop, range loop)
+	if iv := inductionForm(v); iv != "" {
+		return iv
+	}
 	switch x := v.(type) {
 	case *ssa.Parameter:
 		return "param"
@@ -2103,6 +2107,24 @@ func valueFingerprint(v ssa.Value, depth int, busy map[ssa.Value]bool) string {
 		return x.Op.String() + "(" + sub(x.X) + "," + sub(x.Y) + ")"
 	case *ssa.UnOp:
 		if x.Op == token.MUL {
+			// a parameter (receiver) spilled into a local because a closure captures it is still the parameter
+			if a, ok := x.X.(*ssa.Alloc); ok {
+				var only ssa.Value
+				n := 0
+				for _, ref := range core.Referrers(a) {
+					if st, ok := ref.(*ssa.Store); ok && st.Addr == ssa.Value(a) {
+						n++
+						only = st.Val
+					}
+				}
+				if _, isPar := only.(*ssa.Parameter); isPar && n == 1 {
+					return "param"
+				}
+			}
+			if fv, ok := x.X.(*ssa.FreeVar); ok {
+				_ = fv
+				return "param" // a captured variable of the enclosing function
+			}
 			return "*" + sub(x.X)
 		}
 		return x.Op.String() + sub(x.X)
@@ -2162,6 +2184,44 @@ func instrFingerprint(in ssa.Instruction) string {
 		return valueFingerprint(x.X, d, busy) + "[" + valueFingerprint(x.Low, d, busy) + ":" + valueFingerprint(x.High, d, busy) + "]"
 	case *ssa.MakeSlice:
 		return "make(" + valueFingerprint(x.Len, d, busy) + "," + valueFingerprint(x.Cap, d, busy) + ")"
+	}
+	return ""
+}
+
+// inductionForm: v is a loop counter starting at a constant k and stepping by a constant s: "iv(k,s)".
+// Covers `for i := k; …; i += s` (phi{k, phi+s}) and the range form (phi{k-s, this}+s).
+func inductionForm(v ssa.Value) string {
+	if ph, ok := v.(*ssa.Phi); ok && len(ph.Edges) == 2 {
+		var k, st int64
+		var haveK, haveS bool
+		for _, e := range ph.Edges {
+			if c, ok := core.ConstInt(e); ok {
+				k, haveK = c, true
+				continue
+			}
+			if bo, ok := e.(*ssa.BinOp); ok && (bo.Op == token.ADD || bo.Op == token.SUB) && bo.X == ssa.Value(ph) {
+				if c, ok := core.ConstInt(bo.Y); ok {
+					st, haveS = c, true
+					if bo.Op == token.SUB {
+						st = -c
+					}
+				}
+			}
+		}
+		if haveK && haveS {
+			return sprintf("iv(%d,%d)", k, st)
+		}
+	}
+	if bo, ok := v.(*ssa.BinOp); ok && bo.Op == token.ADD {
+		if ph, ok := bo.X.(*ssa.Phi); ok && len(ph.Edges) == 2 {
+			if st, ok := core.ConstInt(bo.Y); ok {
+				for i, e := range ph.Edges {
+					if c, ok := core.ConstInt(e); ok && ph.Edges[1-i] == ssa.Value(bo) {
+						return sprintf("iv(%d,%d)", c+st, st)
+					}
+				}
+			}
+		}
 	}
 	return ""
 }
